@@ -15,6 +15,8 @@ import Comdex.Model.LendRates
   lr.borrow  amount rate rrate gi rgi now prev            outcome i igc ri rigc
   lr.stable  amount rate now prev                         outcome i
   lr.track   trBefore x  paid trAfter                     (real lend-reward tracker step)
+  lr.routes  stable amount apr rr stableRate gi rgi now prev  outcomeA dA outcomeB dB   (one borrow accrued from the same state by
+                                                          IterateBorrow (A) and CalculateBorrowInterestForLiquidation (B))
   lr.rebalance stableRate poolStableRate utilisation   outcome newStableRate     (real ReBalanceStableRates)
   lr.stamp   now lastInteractionAfter indexAfter indexReturned again   (real MsgCalculateLendRewards: the handler stores (index, now);
                                                           again = real reward of a second calculation in the same block)
@@ -304,6 +306,25 @@ def handle (st : St) (seq : String) (f : List String) : St × List String :=
       let m2 := if tb ≥ 0 && tb < Dec.one && x ≥ 0 && !Comdex.Accrual.carryOk tb x paid ta then ["tracker_carry"] else []
       ({ st with lastTr := some ta }, cont ++ d ++ mons seq (m1 ++ m2))
     | _ => (st, [s!"BAD\t{seq}\tlr.track args"])
+  | ["lr.routes", stb, a, r, rr, sr, gi, rgi, now, prev, oA, dA, oB, dB] =>
+    match ints [a, r, rr, sr, gi, rgi, now, prev], parseBool? stb with
+    | some [a, r, rr, sr, gi, rgi, now, prev], some stb =>
+      let m := borrowCharge stb a r rr sr gi rgi now prev
+      let ms := match m with | .ok [d] => s!"ok\t{d}" | .ok _ => "err" | .err => "err" | .panic => "panic"
+      let iA := if oA = "ok" then s!"ok\t{dA}" else oA
+      let iB := if oB = "ok" then s!"ok\t{dB}" else oB
+      let d := (if ms = iA then [] else [s!"DIFF\t{seq}\tborrow accrual (message route): model={ms}\timpl={iA}"]) ++
+               (if ms = iB then [] else [s!"DIFF\t{seq}\tborrow accrual (liquidation route): model={ms}\timpl={iB}"])
+      -- monitors on the REAL amounts: both routes book the same interest; the liquidation route books no more than the single
+      -- accrual formula of the position's kind (locked rate for a stable borrow, index interest otherwise)
+      let single : Option Int := if stb then (match stableBorrowInterest a sr now prev with | .ok [x] => some x | _ => none)
+        else (match lendReward a r gi now prev with | .ok [x, _] => some x | _ => none)
+      let m1 := if oA = "ok" && oB = "ok" && dA != dB then ["accrual_route_independent"] else []
+      let m2 := match oB, parseInt? dB, single with
+        | "ok", some y, some x => if y > x then ["liq_route_single_accrual"] else []
+        | _, _, _ => []
+      (st, d ++ mons seq (m1 ++ m2))
+    | _, _ => (st, [s!"BAD\t{seq}\tlr.routes args"])
   | ["lr.rebalance", s0, stt, u, o, s1] =>
     match ints [s0, stt, u] with
     | some [s0, stt, u] =>
